@@ -43,12 +43,15 @@ type protoMon struct {
 	state      byte // 'W' waiting for a Logon, 'L' logged on, 'O' logout sent by us, awaiting answer
 	everLogged bool
 	sawInvalid bool
+	silences   int
+	loggedOut  bool // the session was logged on and has left that state at least once
+	silAfterLO int  // silence periods since then: the test-request timer of the ended logon may have fired
 	evs        map[string]*protoEvent
 	lastSeq    int
 }
 
 func (m *protoMon) Key() string {
-	return fmt.Sprintf("%c%v%v", m.state, m.everLogged, m.sawInvalid)
+	return fmt.Sprintf("%c%v%v%d%v%d", m.state, m.everLogged, m.sawInvalid, m.silences, m.loggedOut, m.silAfterLO)
 }
 
 func countType(outs []outMsg, t string) int {
@@ -61,7 +64,22 @@ func countType(outs []outMsg, t string) int {
 	return n
 }
 
+// Step evaluates one step.  Symptoms that appear only after "logged on, logged out, then a silent
+// period" share one root cause (the timers of the ended logon keep running and the test-request
+// task rewrites the session state); they are reported under the prefix after-logout+silence: with
+// the event name dropped, so that the finding is one signature per symptom, not per event.
 func (m *protoMon) Step(w *world, ev event, outs []outMsg) (string, string) {
+	sig, d := m.step(w, ev, outs)
+	if sig != "" && m.prop == "C06" && m.silAfterLO > 0 {
+		if i := strings.Index(sig, ":"); i >= 0 {
+			sig = sig[:i]
+		}
+		sig = "after-logout+silence:" + sig
+	}
+	return sig, d
+}
+
+func (m *protoMon) step(w *world, ev event, outs []outMsg) (string, string) {
 	pe := m.evs[ev.Name]
 	before := m.state
 	logged := w.s.IsLogged()
@@ -76,6 +94,12 @@ func (m *protoMon) Step(w *world, ev event, outs []outMsg) (string, string) {
 	if in != nil && in.Seq != nil {
 		seq = in.Seq(w)
 	}
+	if pe.Local == "silence" {
+		m.silences++
+		if m.loggedOut {
+			m.silAfterLO++
+		}
+	}
 	switch {
 	case pe.Local == "logout":
 		m.state = 'O'
@@ -84,6 +108,18 @@ func (m *protoMon) Step(w *world, ev event, outs []outMsg) (string, string) {
 		m.everLogged = true
 	case in != nil && in.Type == "5" && in.Valid && (before == 'L' || before == 'O'):
 		m.state = 'W'
+	}
+	if m.prop == "C07" && !m.everLogged {
+		// judged first: what was transmitted counts even if the session has meanwhile shut itself down
+		for _, o := range outs {
+			t := mtype(o.Msg)
+			if t != "A" && t != "5" && t != "3" {
+				return "pre-logon:" + evClass(pe) + "->" + typeName(t), fmt.Sprintf("message type %s sent before any successful logon | model %c->%c outs=[%s]", t, before, m.state, outsStr(outs))
+			}
+		}
+	}
+	if before == 'L' && m.state != 'L' {
+		m.loggedOut = true
 	}
 	if w.runDone || w.ctxDone {
 		if m.prop == "C16" {
@@ -110,6 +146,11 @@ func (m *protoMon) Step(w *world, ev event, outs []outMsg) (string, string) {
 		}
 	case "C06":
 		if logged && m.state != 'L' {
+			if m.everLogged && m.silences > 0 {
+				// an approved Logon happened earlier on this connection and the session was logged out
+				// since; it came back to "logged on" through the test-request timer, without a new Logon
+				return "relogged-by-timer-after-logout", det("IsLogged()=true again after a logout, without a new Logon (reference automaton in %c)", m.state)
+			}
 			return "logged-without-valid-logon:" + evClass(pe), det("IsLogged()=true but the reference automaton is in %c", m.state)
 		}
 		if in != nil && in.Type == "A" {
@@ -334,12 +375,15 @@ func protoAlphabet(role string, which string) []*protoEvent {
 	case "C16":
 		add(inEv("Heartbeat(bad-checksum)", "0", false, false, "", true, func(w *world) []byte { return badChecksum(w.msg("0")) }))
 		add(inEv("TestRequest(bad-length)", "1", false, false, "", true, func(w *world) []byte { return badLength(w.msg("1", "112=T2")) }))
+		add(inEv("TestRequest(length-1)", "1", false, false, "", true, func(w *world) []byte { return badLengthBy(w.msg("1", "112=T4"), -1) }))
+		add(inEv("Logout(length-3)", "5", false, false, "", true, func(w *world) []byte { return badLengthBy(w.msg("5"), -3) }))
 		add(inEv("ResendRequest(begin-not-numeric)", "2", false, false, "", true, func(w *world) []byte { return w.msg("2", "7=x", "16=0") }))
 		add(inEv("Logout(bad-checksum)", "5", false, false, "", true, func(w *world) []byte { return badChecksum(w.msg("5")) }))
 		add(inEv("Heartbeat(seq-missing,bad-checksum)", "0", false, false, "", false, func(w *world) []byte { return badChecksum(withField(w.msg("0"), "34", "\x00del")) }))
 		add(inEv("TestRequest(seq-not-numeric,bad-length)", "1", false, false, "", false, func(w *world) []byte { return badLength(withField(w.msg("1", "112=T3"), "34", "x7")) }))
 		add(inEv("Logon(seq-missing,hb-not-numeric)", "A", false, false, "", false, func(w *world) []byte { return withField(w.msg("A", "98=0", "108=zz"), "34", "\x00del") }))
 	case "C06":
+		add(&protoEvent{Local: "silence", event: event{Name: "Silence(35 s)", Do: func(w *world) { sleepFor(35) }}})
 		add(&protoEvent{Local: "send", event: event{Name: "local Send(app)", Do: func(w *world) { _ = w.s.Send(fixgen.NewMarketDataRequest()) }}})
 		add(&protoEvent{Local: "logout", event: event{Name: "local Logout", Do: func(w *world) { _ = w.s.Logout() }}})
 	}
@@ -395,6 +439,23 @@ func protoCfgs(prop string, tier string) []*histCfg {
 				},
 			}
 			cfgs = append(cfgs, c)
+			if tier == "thorough" {
+				// deeper exploration over a core alphabet (the events that move the automaton or the timers)
+				core := map[string]bool{"Logon(ok,hb=30)": true, "Logon(credentials-refused)": true, "Logon(bad-checksum)": true, "Logout": true,
+					"local Logout": true, "Silence(35 s)": true, "Silence(3 periods)": true, "Heartbeat": true, "TestRequest": true,
+					"ResendRequest(1,0)": true, "ResendRequest(1,2)": true, "Logout(bad-checksum)": true, "TestRequest(length-1)": true, "Logon(hb=31>max)": true}
+				var calpha []event
+				for _, e := range alpha {
+					if core[e.Name] {
+						calpha = append(calpha, e)
+					}
+				}
+				cc := *c
+				cc.Name = c.Name + "/core"
+				cc.Alphabet = calpha
+				cc.Depth = 6
+				cfgs = append(cfgs, &cc)
+			}
 		}
 	}
 	return cfgs
